@@ -105,9 +105,10 @@ func init() {
 				Run: func(w *fw.W) {
 					w.Each(len(cuts), func(i int) { w.Item(cuts[i], "") })
 				}, Eval: evalC01Traced},
-			{Name: "repetition", Space: "opener x unit in S1core^<=2 x closer at 4K/16K (quick) and 64K (thorough) bytes", Share: 2,
+			{Name: "repetition", Space: "opener x unit in S1core^<=2 x closer at 4K (work-budget monitor armed); units S1core^<=1 (quick) / <=2 (thorough) at 16K and 64K (thorough)", Share: 2,
 				Run: func(w *fw.W) {
-					lens := []int{4096, 16384}
+					runRep(w, alpha.Units(alpha.S1core, 2), sqlOpeners, sqlClosers, []int{4096})
+					lens := []int{16384}
 					if w.Thorough() {
 						lens = append(lens, 65536)
 					}
